@@ -3,7 +3,8 @@
    proofs: PP.Proofs.C31. *)
 From Coq Require Import List QArith Qabs ZArith Lia.
 Import ListNotations.
-From PP Require Import Model.C28 Model.C31 Proofs.C28 Proofs.C31.
+From Coq Require Import Permutation.
+From PP Require Import Model.C28 Model.C31 Proofs.C28 Proofs.C31 Proofs.C31_sort Proofs.C31_pip2 Proofs.C31_line Proofs.C31_polyh Proofs.C31_planar.
 Open Scope Q_scope.
 
 (* is_ccw_polygon: for EVERY polygon (any vertex list) the answer is True exactly when the
@@ -80,6 +81,130 @@ Theorem C31_pip_nonconvex_boxes :
 Proof. exact pip_nonconvex_boxes. Qed.
 Print Assumptions C31_pip_nonconvex_boxes.
 
+(* the same finite-domain statement for two further non-convex simple polygons: a 16-vertex
+   rectilinear spiral and a 10-vertex star. *)
+Theorem C31_pip_nonconvex_boxes_more :
+  forall poly, In poly [poly_spiral; poly_star] ->
+  forall (x y : Z) (default : bool), (-2 <= x <= 8)%Z -> (-2 <= y <= 8)%Z ->
+    point_in_polygon default poly (inject_Z x, inject_Z y)
+    = match pip_ref poly (inject_Z x, inject_Z y) with None => default | Some b => b end.
+Proof. exact pip_nonconvex_boxes2. Qed.
+Print Assumptions C31_pip_nonconvex_boxes_more.
+
+(* point_in_polygon, the other direction: for ANY vertex list, a point that a line through
+   it separates strictly from all vertices is reported outside (the winding number the
+   code computes telescopes to 0). *)
+Theorem C31_pip_separated_outside :
+  forall default poly p al be,
+    poly <> [] ->
+    (forall a, In a poly -> 0 < al * (fst a - fst p) + be * (snd a - snd p)) ->
+    point_in_polygon default poly p = false.
+Proof. exact pip_separated. Qed.
+Print Assumptions C31_pip_separated_outside.
+
+(* point_in_polygon on convex counter-clockwise polygons (every vertex on the left of, or
+   on, every edge line): strictly left of all edges => inside; strictly right of some
+   edge => outside.  (The remaining points lie on the boundary, where the answer is the
+   caller's default by the tie/finite-domain theorem only.) *)
+Theorem C31_pip_convex :
+  forall default poly p,
+    poly <> [] ->
+    (forall a b v, In (a, b) (combine poly (roll1 poly)) -> In v poly -> 0 <= cross3 a b v) ->
+    ((forall a b, In (a, b) (combine poly (roll1 poly)) -> 0 < cross3 a b p) ->
+     point_in_polygon default poly p = true) /\
+    ((exists a b, In (a, b) (combine poly (roll1 poly)) /\ cross3 a b p < 0) ->
+     point_in_polygon default poly p = false).
+Proof.
+  intros default poly p Hne Hcvx. split.
+  - intro H. exact (pip_all_left default poly p Hne H).
+  - intros (a & b & Hin & Hneg).
+    exact (pip_convex_outside default poly p a b Hne Hneg (fun v Hv => Hcvx a b v Hin Hv)).
+Qed.
+Print Assumptions C31_pip_convex.
+
+(* sort_point_pairs, loop level: whenever the call succeeds (no AssertionError/IndexError),
+   sort_ind is a permutation of 0..n-1, column k of the output is input pair sort_ind[k]
+   possibly flipped, consecutive columns chain, and in circular mode with check_circular
+   the chain closes.  (Still open: that every single chain/cycle input DOES succeed —
+   checked by the oracle.) *)
+Theorem C31_chain_valid :
+  forall lines chk circ sorted ind,
+    sort_point_pairs lines chk circ = SOk sorted ind ->
+    let n := length lines in
+    (length sorted = n /\ Permutation ind (seq 0 n) /\
+    (forall k, k < n -> exists a b, nth_error lines (nth k ind 0) = Some (a, b) /\
+                           (nth k sorted dl = (a, b) \/ nth k sorted dl = (b, a))) /\
+    (forall k, S k < n -> snd (nth k sorted dl) = fst (nth (S k) sorted dl)) /\
+    (circ = true -> chk = true -> fst (nth 0 sorted dl) = snd (nth (n - 1) sorted dl)))%nat.
+Proof. exact sort_point_pairs_sound. Qed.
+Print Assumptions C31_chain_valid.
+
+(* sort_points_on_line, model level: the index list — stable argsort of the sort keys — is
+   a permutation of 0..n-1 listing the keys in non-decreasing order (any input). *)
+Theorem C31_sort_on_line_keys :
+  forall pts : list v3,
+    let idx := sort_points_on_line_idx pts in
+    Permutation idx (seq 0 (length pts)) /\
+    nondecr (map (fun i => nth i (line_keys pts) 0) idx).
+Proof. exact sort_points_on_line_spec. Qed.
+Print Assumptions C31_sort_on_line_keys.
+
+(* sort_points_on_line, end to end on collinear input: for points a + s_i v with v <> 0 that
+   do not all coincide, the output is a permutation along which the line parameter s is
+   monotone (c * s_i non-decreasing for one c <> 0, i.e. ascending or descending).
+   (The rotation of the code is not modelled: the sort key tangent.(p - mean) — z itself when
+   the tangent is +-e_z — is what the tie compares the code against.) *)
+Theorem C31_sort_on_line_monotone :
+  forall a v ss, ss <> [] ->
+    ~ (fst (fst v) == 0 /\ snd (fst v) == 0 /\ snd v == 0) ->
+    ~ all_eq ss (qsum ss / qlen ss) ->
+    let idx := sort_points_on_line_idx (map (lpt a v) ss) in
+    Permutation idx (seq 0 (length ss)) /\
+    exists c, ~ c == 0 /\ nondecr (map (fun i => c * nth i ss 0) idx).
+Proof. exact sort_on_line_monotone. Qed.
+Print Assumptions C31_sort_on_line_monotone.
+
+(* points_are_planar(pts, normal=None): compute_normal is modelled (un-normalised cross
+   product of the longest centred vector with the one giving the longest cross product).
+   Every point set contained in a plane m.p = k (m <> 0) is accepted whenever
+   compute_normal does not raise (any tolerances); ValueError exactly for fewer than three
+   points.  (Rejection of non-coplanar sets is by the squared-tolerance inequality itself;
+   tie + oracle.) *)
+Theorem C31_planar_auto :
+  (forall tn tol pts m k,
+     nonzero3 m -> (forall p, In p pts -> dot3 m p == k) ->
+     match points_are_planar_auto tn tol pts with POk b => b = true | _ => True end) /\
+  (forall tn tol pts,
+     (length pts <= 2)%nat <-> points_are_planar_auto tn tol pts = PValueErr).
+Proof. split; [exact planar_auto_accepts|exact planar_auto_too_few]. Qed.
+Print Assumptions C31_planar_auto.
+
+(* point_in_polyhedron, transcribed decision logic: a test point lying in the supporting
+   PLANE of any triangle of the surface (wherever in that plane) makes solid_angle raise,
+   and the caller answers "outside". *)
+Theorem C31_polyhedron_coplanar_outside :
+  forall tol tris p A B C,
+    0 < tol -> In (A, B, C) tris ->
+    det3 (sub3 A p) (sub3 B p) (sub3 C p) == 0 ->
+    pih_decision tol tris p = Some false.
+Proof. exact pih_coplanar_outside. Qed.
+Print Assumptions C31_polyhedron_coplanar_outside.
+
+(* ... which REFUTES "inside test = exact inside test away from the boundary": for the
+   conforming triangulation of the L-shaped prism the point (3,2,1) is strictly interior
+   (and the exact ray-parity reference says inside) but lies in the plane y = 2 of far
+   triangles, so the decision is "outside" (open finding); a generic interior point is not
+   decided by this logic. *)
+Theorem C31_polyhedron_refuted :
+  let p : v3 := (3, 2, 1) in
+  Lprism_interior p /\ pih_ref Lprism_tris p = Some true /\
+  pih_decision tol10 Lprism_tris p = Some false /\
+  Lprism_interior (13 # 4, 9 # 4, 3 # 4) /\
+  pih_decision tol10 Lprism_tris (13 # 4, 9 # 4, 3 # 4) = None /\
+  pih_ref Lprism_tris (13 # 4, 9 # 4, 3 # 4) = Some true.
+Proof. exact pih_refuted. Qed.
+Print Assumptions C31_polyhedron_refuted.
+
 (* sort_point_pairs, the chaining step (PARTIAL: only the inner-loop link is proved —
    the pair appended at each step is a not-yet-used input pair, possibly flipped, whose
    first entry equals the open end `prev`, and the new open end is its second entry; and
@@ -135,3 +260,56 @@ Example C31_nonvacuous_sort :
   scan [(1, 2); (5, 1); (2, 7); (7, 5)]%Z [true; false; false; false] 2%Z 0%nat
   = Some (2%nat, (2, 7)%Z, 7%Z).
 Proof. split; vm_compute; reflexivity. Qed.
+
+Example C31_nonvacuous_separated :
+  let sq := [(0, 0); (4, 0); (4, 4); (0, 4)] in
+  sq <> [] /\
+  (forall a, In a sq -> 0 < (-1) * (fst a - 5) + 0 * (snd a - 2)) /\
+  point_in_polygon true sq (5, 2) = false /\
+  (forall a b v, In (a, b) (combine sq (roll1 sq)) -> In v sq -> 0 <= cross3 a b v).
+Proof.
+  cbv zeta. split; [discriminate|]. split; [|split].
+  - intros a Hin. cbn in Hin. destruct Hin as [<- | [<- | [<- | [<- | []]]]]; vm_compute; reflexivity.
+  - vm_compute. reflexivity.
+  - intros a b v Hin Hv. cbn in Hin, Hv.
+    destruct Hin as [E | [E | [E | [E | []]]]]; injection E as <- <-;
+      destruct Hv as [<- | [<- | [<- | [<- | []]]]]; vm_compute; discriminate.
+Qed.
+
+Example C31_nonvacuous_sort_line :
+  sort_points_on_line_idx [(0, 0, 0); (2, 2, 0); (1, 1, 0); (-1, -1, 0)] = [3; 0; 2; 1]%nat.
+Proof. vm_compute. reflexivity. Qed.
+
+Example C31_nonvacuous_polyhedron :
+  In ((2, 2, 0), (0, 2, 0), (0, 2, 2)) Lprism_tris /\
+  det3 (sub3 (2, 2, 0) (3, 2, 1)) (sub3 (0, 2, 0) (3, 2, 1)) (sub3 (0, 2, 2) (3, 2, 1)) == 0.
+Proof. split; [vm_compute; tauto|vm_compute; reflexivity]. Qed.
+
+Example C31_nonvacuous_sort_line_monotone :
+  let ss := [0; 2; 1; -1] in
+  ss <> [] /\ ~ all_eq ss (qsum ss / qlen ss) /\
+  map (lpt (1, 0, 3) (1, 1, 0)) ss = [(1 + 0 * 1, 0 + 0 * 1, 3 + 0 * 0); (1 + 2 * 1, 0 + 2 * 1, 3 + 2 * 0);
+                                      (1 + 1 * 1, 0 + 1 * 1, 3 + 1 * 0); (1 + -1 * 1, 0 + -1 * 1, 3 + -1 * 0)] /\
+  sort_points_on_line_idx (map (lpt (1, 0, 3) (1, 1, 0)) ss) = [3; 0; 2; 1]%nat.
+Proof.
+  cbv zeta. split; [discriminate|]. split; [|split; [reflexivity|vm_compute; reflexivity]].
+  intros [E _]. vm_compute in E. discriminate.
+Qed.
+
+Example C31_nonvacuous_planar_auto :
+  let pts := [(0, 0, 1); (2, 0, 1); (0, 3, 1); (1, 1, 1)] in
+  nonzero3 (0, 0, 1) /\ (forall p, In p pts -> dot3 (0, 0, 1) p == 1) /\
+  points_are_planar_auto (1 # 100000) (1 # 100000) pts = POk true /\
+  points_are_planar_auto (1 # 100000) (1 # 100000) [(0, 0, 1); (2, 0, 1); (0, 3, 1); (1, 1, 2)] = POk false /\
+  points_are_planar_auto (1 # 100000) (1 # 100000) [(0, 0, 0); (1, 1, 1); (2, 2, 2)] = PRuntimeErr.
+Proof.
+  cbv zeta. split; [intros (_ & _ & H); vm_compute in H; discriminate|].
+  split; [|repeat split; vm_compute; reflexivity].
+  intros p Hin. cbn in Hin. destruct Hin as [<- | [<- | [<- | [<- | []]]]]; vm_compute; reflexivity.
+Qed.
+
+Example C31_nonvacuous_spiral :
+  point_in_polygon false poly_spiral (7 # 2, 9 # 2) = true /\ point_in_polygon true poly_spiral (6, 4) = false /\
+  pip_ref poly_spiral (7 # 2, 9 # 2) = Some true /\ pip_ref poly_spiral (6, 4) = Some false /\
+  pip_ref poly_spiral (4, 3) = None.
+Proof. repeat split; vm_compute; reflexivity. Qed.
